@@ -1087,6 +1087,13 @@ func (c *Ctx) templateByInterpretation(cl *ssa.Function) (decided, ok bool, why 
 		if !isInt {
 			return false, false, ""
 		}
+		// the frame's storage belongs to this invocation: the decoder keeps windows of it (the BCD phone of the header the
+		// option installs), so a buffer that outlives the call is rewritten by the next WithHeader for every earlier terminal
+		for _, ab := range absint.AliasClosure(f.fr.Base) {
+			if !ab.Fresh {
+				return true, false, "the template frame is assembled in storage that outlives the call (" + ab.Desc + "): the header decoded from it keeps a window of that storage as its BCD phone, so the next WithHeader call overwrites the phone of every terminal built earlier"
+			}
+		}
 		segs, okL := a.ByteLayout(f.st, f.fr)
 		if debug {
 			fmt.Printf("TEMPLATE layout ok=%v code=%s segs=%v\n", okL, codeR, segs)
